@@ -28,10 +28,11 @@ import (
 // Case is one debug session.
 type Case struct {
 	Src     string   `json:"src"`
-	Lines   []int    `json:"lines"`   // line breakpoints
-	Funcs   []string `json:"funcs"`   // function breakpoints
-	Actions []int    `json:"actions"` // resume requests consumed at each stop: 0 continue, 1 into, 2 over, 3 out
-	Entry   bool     `json:"entry"`   // start with Step(DebugEntry)
+	Lines   []int    `json:"lines"`           // line breakpoints
+	Funcs   []string `json:"funcs"`           // function breakpoints
+	Actions []int    `json:"actions"`         // resume requests consumed at each stop: 0 continue, 1 into, 2 over, 3 out
+	Entry   bool     `json:"entry"`           // start with Step(DebugEntry)
+	Split   bool     `json:"split,omitempty"` // function breakpoints set by a first SetBreakpoints call, line breakpoints by a second one
 }
 
 type syncBuf struct {
@@ -172,7 +173,14 @@ func debug(c *Case) (result, []event, []interp.Breakpoint) {
 		reqs = append(reqs, interp.FunctionBreakpoint(f))
 	}
 	var bps []interp.Breakpoint
-	if len(reqs) > 0 {
+	switch {
+	case c.Split && len(c.Lines) > 0 && len(c.Funcs) > 0:
+		// as a debug adapter does: one request per kind; a request for lines
+		// leaves the function breakpoints in place
+		fb := dbg.SetBreakpoints(interp.ProgramBreakpointTarget(prog), reqs[len(c.Lines):]...)
+		lb := dbg.SetBreakpoints(interp.ProgramBreakpointTarget(prog), reqs[:len(c.Lines)]...)
+		bps = append(lb, fb...)
+	case len(reqs) > 0:
 		bps = dbg.SetBreakpoints(interp.ProgramBreakpointTarget(prog), reqs...)
 	}
 	done := make(chan struct{})
@@ -517,7 +525,14 @@ func genCase(t *rapid.T, cfg *progen.Config) *Case {
 			}
 		}
 	}
-	switch rapid.IntRange(0, 5).Draw(t, "bpmode") {
+	funcBps := func() {
+		for _, name := range []string{"main", "fn0", "fn1", "fn2"} {
+			if strings.Contains(p.Src, "func "+name+"(") && rapid.Bool().Draw(t, "fbp") {
+				c.Funcs = append(c.Funcs, name)
+			}
+		}
+	}
+	switch rapid.IntRange(0, 7).Draw(t, "bpmode") {
 	case 0: // none
 	case 1: // every line
 		for l := mainLine; l <= nlines; l++ {
@@ -540,12 +555,26 @@ func genCase(t *rapid.T, cfg *progen.Config) *Case {
 		}
 	case 4: // random subset
 		c.Lines = rapid.SliceOfNDistinct(rapid.IntRange(mainLine, nlines), 1, 12, rapid.ID[int]).Draw(t, "lines")
-	default: // function breakpoints
-		for _, name := range []string{"main", "fn0", "fn1", "fn2"} {
-			if strings.Contains(p.Src, "func "+name+"(") && rapid.Bool().Draw(t, "fbp") {
-				c.Funcs = append(c.Funcs, name)
+	case 5: // function breakpoints
+		funcBps()
+	default: // function and line breakpoints together
+		funcBps()
+		if rapid.Bool().Draw(t, "marklines") {
+			for l := range markerLines(p.Src) {
+				c.Lines = append(c.Lines, l)
+			}
+			sort.Ints(c.Lines)
+		}
+		for _, l := range rapid.SliceOfNDistinct(rapid.IntRange(mainLine, nlines), 1, 8, rapid.ID[int]).Draw(t, "mixlines") {
+			dup := false
+			for _, x := range c.Lines {
+				dup = dup || x == l
+			}
+			if !dup {
+				c.Lines = append(c.Lines, l)
 			}
 		}
+		c.Split = rapid.Bool().Draw(t, "split")
 	}
 	c.Actions = rapid.SliceOfN(rapid.IntRange(0, 3), 0, 40).Draw(t, "actions")
 	c.Entry = rapid.Bool().Draw(t, "entry")
@@ -569,6 +598,10 @@ func run(ctx *vf.Ctx) {
 			ctx.ClassN(k, v)
 		}
 		switch {
+		case len(c.Funcs) > 0 && len(c.Lines) > 0 && c.Split:
+			ctx.Class("bp:functions+lines (two requests)")
+		case len(c.Funcs) > 0 && len(c.Lines) > 0:
+			ctx.Class("bp:functions+lines")
 		case len(c.Funcs) > 0:
 			ctx.Class("bp:functions")
 		case len(c.Lines) == 0:
@@ -602,7 +635,7 @@ func init() {
 	vf.Register(&vf.Check{
 		ID:    "C19",
 		Level: "exploration",
-		Rule: "case = a sequential program from internal/progen (one statement per line) x breakpoint set (none, every line, all print-statement lines plus random lines, random subset, function breakpoints) x a drawn sequence of resume requests (continue, step-into, step-over, step-out) consumed at each stop x optional initial Step(DebugEntry); oracle = plain Execute of the same source on a fresh interpreter (stdout, result, panic) plus the breakpoint model: break events on print-statement lines must equal, in order, the markers those lines print, each arriving before its marker, and the session must end with a terminate event; non-trivial = some breakpoint line hit >= 2 times and >= 1 step request completed; distinct by full case content",
+		Rule:  "case = a sequential program from internal/progen (one statement per line) x breakpoint set (none, every line, all marker lines plus random lines, random subset, function breakpoints, function and line breakpoints together in one or two SetBreakpoints requests) x a drawn sequence of resume requests (continue, step-into, step-over, step-out) consumed at each stop x optional initial Step(DebugEntry); oracle = plain Execute of the same source on a fresh interpreter (stdout, result, panic) plus the breakpoint model: every generated function starts with an entry marker print and marker lines are the single-line print statements with a unique label (pN, bN, eN); break events on marker lines carrying a breakpoint (a line breakpoint, or a function breakpoint for the entry marker of that function) must equal, in order, the markers those lines print, each arriving before its marker; a break on a line without breakpoint is a violation; a function breakpoint on a declared function must be valid and positioned on its first statement; the session must end with a terminate event; non-trivial = some breakpoint line hit >= 2 times and >= 1 step request completed; distinct by full case content",
 		Assumptions: []string{
 			"the plain run is tied to compiled Go by C01; C19 compares two interpreter runs whose equality the property asserts",
 			"programs are single-goroutine; the controller resumes the interpreter from outside the event callback",
